@@ -10,9 +10,12 @@ def build(reg):
     specs += ublock.add_ublock(reg)  # the bodies behind the user-block contracts the life cycle calls (verified on their own, not registered as callees)
     specs += [x for x in naming.add_naming(reg, register=False) if x.qual.endswith('_infer_name')]
     specs += ovlguards.add_ovlguards(reg)  # what 'writable' means, and that a dataset node writes only into the newest uncommitted container
+    from . import oneliners
+
+    specs = specs + oneliners.add_oneliners(reg, props=("C02",))  # one- and two-line delegations, verified against what other contracts bind them to
     return {
         "verify": specs,
         "lemmas": [],
-        "trusted": hashing.TRUSTED + [record.T1_OPEN, record.T1_X, record.T2_UNLINK, record.T3_HEX, record.T5_UB, record.T6_UUID, manifest.T5_MF] + ublock.T_UB + ovlguards.T_GUARDS,
+        "trusted": oneliners.T_ONE + hashing.TRUSTED + [record.T1_OPEN, record.T1_X, record.T2_UNLINK, record.T3_HEX, record.T5_UB, record.T6_UUID, manifest.T5_MF] + ublock.T_UB + ovlguards.T_GUARDS,
         "assumptions": ["IH5UserBlock.save / create are callee contracts in the life-cycle functions; their bodies are verified separately in this check (UbSaveBody, UbCreateBody) against the same statements", "_next_patch_filepath returns some path in the life-cycle contracts (its text is under contract in C03); freshness is not needed because _new_container uses mode 'x'"],
     }
